@@ -20,6 +20,7 @@
 
 from __future__ import annotations
 
+import contextlib
 import itertools
 import typing
 import warnings
@@ -278,7 +279,12 @@ class Signals:
         function will simply do nothing.
         """
         handlers = setdefaultattr(obj, self._signal_attr, {}).get(name, [])
-        handlers[:] = [h for h in handlers if h[0] is not key]
+        # a garbage collection may run between any two steps here, and a weak argument that dies in it calls this
+        # method again for its own handler: look through a snapshot and take each match out in one step
+        for h in list(handlers):
+            if h[0] is key:
+                with contextlib.suppress(ValueError):
+                    handlers.remove(h)
 
     def emit(self, obj, name: Hashable, *args) -> bool:
         """
